@@ -110,7 +110,7 @@ def check_dtype_mix(ctx, repo):
     return n
 
 
-def selection_of(recv, fa):
+def selection_of(recv, fa, _depth=0):
     """Name of the selection a receiver aggregates over: A[M] with M comparison-derived, or X = E.nonzero()[0]."""
     if isinstance(recv, ast.Subscript):
         m = recv.slice
@@ -130,6 +130,8 @@ def selection_of(recv, fa):
         ds = [v for d, v in fa.defs(recv) if v is not None]
         if ds and all(src(v).replace(' ', '').endswith('.nonzero()[0]') for v in ds):
             return recv.id, False
+        if len(ds) == 1 and isinstance(ds[0], ast.Subscript) and _depth < 2:
+            return selection_of(ds[0], fa, _depth + 1)           # good = A[M]; good.min()
     return None
 
 
@@ -210,7 +212,13 @@ def check_scrub(ctx, repo):
     sif, d, nm = scrub
     outs = [r for r in walk_local(f.node) if isinstance(r, ast.Return) and isinstance(r.value, ast.Tuple)]
     flux, ivar = src(outs[-1].value.elts[0]), src(outs[-1].value.elts[1])
-    okd = ('isfinite(%s)' % flux) in src(d) and ('isfinite(%s)' % ivar) in src(d) and src(d).count('~') >= 2
+    # the selection is `not finite(flux) or not finite(ivar)` in any spelling (De Morgan, logical_* forms): compared in canonical form
+    from ..normal import canon_key
+    wantd = {canon_key(ast.parse(t % (flux, ivar), mode='eval').body) for t in (
+        '~np.isfinite(%s) | ~np.isfinite(%s)', '~(np.isfinite(%s) & np.isfinite(%s))', 'np.logical_not(np.isfinite(%s) & np.isfinite(%s))',
+        'np.logical_or(~np.isfinite(%s), ~np.isfinite(%s))', '~np.logical_and(np.isfinite(%s), np.isfinite(%s))',
+        'np.logical_not(np.logical_and(np.isfinite(%s), np.isfinite(%s)))', 'np.logical_or(np.logical_not(np.isfinite(%s)), np.logical_not(np.isfinite(%s)))')}
+    okd = canon_key(d) in wantd
     stores = {src(st.targets[0].value): st for st in sif.body if isinstance(st, ast.Assign) and isinstance(st.targets[0], ast.Subscript)
               and src(st.targets[0].slice) == nm and try_fold(st.value) == 0}
     ctx.check('C11.SCRUB', okd and set(stores) == {flux, ivar}, f, sif, 'non-finite entries of either array zero both %s and %s' % (flux, ivar),
